@@ -965,7 +965,7 @@ def is_regular(c, u, impl):
 
 def corr_subst(ck, n):
     rng = ck.rng
-    raised = changed = covered = covered_rm = covered_gap = 0
+    raised = changed = covered = covered_rm = covered_gap = covered_gen = covered_gen_ign = covered_gen_nodes = 0
     for it in range(n):
         impl, itags = lib_impl(rng) if rng.random() < 0.3 else rand_impl(rng)
         c, htags = rand_host(rng, impl)
@@ -1024,6 +1024,25 @@ def corr_subst(ck, n):
                     if rwf != '1' or hyp[7] != '1':
                         ck.broken_tie('substitute_wf on the real result', f'hypotheses of substitute_sem hold but wf(real result) = {rwf}, '
                                       f'wf(model result) = {hyp[7]}', inp={'request': req})
+                # theorem substitute_sem_general: ignored connected input pins, implementations without designated cell, hosts
+                # that are well-formed up to trailing None; conclusion `result well-formed up to trailing None` (the real result is
+                # checked with `xform wfnt` above for every case)
+                if len(hyp) > 15:
+                    gen_ok = all(hyp[i] == '1' for i in (1, 2, 3, 11, 12, 13))
+                    if gen_ok:
+                        covered_gen += 1
+                        if hyp[9] != '1':
+                            ck.broken_tie('substitute_sem_general: wfNoTrail of the result', f'wfNoTrail(model result) = {hyp[9]}', inp={'request': req})
+                        if semtag.startswith('sem-hyp:uncovered'):
+                            # covered ONLY by the general theorem
+                            if hyp[15] != '1':
+                                semtag = 'sem-hyp:covered-general-no-designated-cell'; covered_gen_nodes += 1
+                            elif hyp[14] == '1':
+                                semtag = 'sem-hyp:covered-general-ignored-pin'; covered_gen_ign += 1
+                            else:
+                                semtag = 'sem-hyp:covered-general'
+                    elif not semtag.startswith('sem-hyp:uncovered'):
+                        ck.broken_tie('substitute_sem_general contains the uses of substitute_sem', f'hypotheses {hyp}', inp={'request': req})
             except Exception as ex:
                 ck.broken_tie('substitute_sem hypotheses', f'driver: {type(ex).__name__}: {ex}'[:300], inp={'request': req})
         ck.case(key=('subst', req), nontrivial=real != 'raise' and len(impl.nodes) > 0,
@@ -1034,12 +1053,15 @@ def corr_subst(ck, n):
     ck.extra['corr_subst_in_hypotheses_of_substitute_sem'] = covered
     ck.extra['corr_subst_in_hypotheses_of_substitute_sem_removing'] = covered_rm
     ck.extra['corr_subst_in_hypotheses_of_substitute_sem_with_fork_gap'] = covered_gap
+    ck.extra['corr_subst_in_hypotheses_of_substitute_sem_general'] = covered_gen
+    ck.extra['corr_subst_only_general_ignored_pin'] = covered_gen_ign
+    ck.extra['corr_subst_only_general_no_designated_cell'] = covered_gen_nodes
 
 
 def corr_resolve(ck, n):
     """resolve_tlib_cells(): model (resolveCells = substitute folded over the snapshot of the nodes) vs real code"""
     rng = ck.rng
-    raised = covered = covered_ds = 0
+    raised = covered = covered_ds = covered_gen = covered_gen_only = 0
     import collections
     ds_tally = collections.Counter()
     for it in range(n):
@@ -1092,6 +1114,21 @@ def corr_resolve(ck, n):
                     if rwf != '1' or hyp[2] != '1':
                         ck.broken_tie('resolve_sem: well-formed result on the real circuit', f'resolveOKB holds but wf(real result) = {rwf}, '
                                       f'wf(model result) = {hyp[2]}', inp={'request': req[:4000]})
+                # theorem resolve_sem_general: substitutions that remove lines / instances / dangling logic
+                if len(hyp) > 7:
+                    gen_ok = hyp[4] == '1' and hyp[5] == '1'
+                    if gen_ok:
+                        covered_gen += 1
+                        rwfnt = common.run_driver([f'xform wfnt {names_arg(c)} {circ.dump_net(c)}'])[0]
+                        if rwfnt != '1' or hyp[6] != '1':
+                            ck.broken_tie('resolve_sem_general: result well-formed up to trailing None', f'resolveGenOKB holds but '
+                                          f'wfNoTrail(real result) = {rwfnt}, wfNoTrail(model result) = {hyp[6]}', inp={'request': req[:4000]})
+                        if not ok:
+                            covered_gen_only += 1; semtag = 'sem-hyp:covered-general'
+                    elif ok:
+                        ck.broken_tie('resolve_sem_general contains the uses of resolve_sem', f'hypotheses {hyp}', inp={'request': req[:4000]})
+                    else:
+                        semtag = 'sem-hyp:uncovered:' + ('host-wfnt' if hyp[4] != '1' else hyp[7].split(':')[0])
             except Exception as ex:
                 ck.broken_tie('resolve_sem hypotheses', f'driver: {type(ex).__name__}: {ex}'[:300], inp={'request': req[:4000]})
         ck.case(key=('resolve', req), nontrivial=real != 'raise' and len(kinds) > 0,
@@ -1100,6 +1137,8 @@ def corr_resolve(ck, n):
     ck.extra['corr_resolve_ds_hyp'] = dict(ds_tally)
     ck.extra['corr_resolve_raised'] = raised
     ck.extra['corr_resolve_in_hypotheses_of_resolve_sem'] = covered
+    ck.extra['corr_resolve_in_hypotheses_of_resolve_sem_general'] = covered_gen
+    ck.extra['corr_resolve_only_general'] = covered_gen_only
 
 
 def compose_case(rng, thorough):
@@ -1326,7 +1365,11 @@ def run(ck):
         'cell exists, no connected-but-ignored input pin, implOKB; resolve: no substitution removes anything; copied forks with a gap '
         'squeezed by the code repaired for D30 are included) - the harness '
         'counts the real cases inside these hypotheses (driver substok / resolveok) and checks the well-formedness of the real '
-        'result there; outside them the function after substitute / resolve_tlib_cells is validated by simulation before/after only',
+        'result there; substitute_sem_general / resolve_sem_general (index maps; ignored connected input pins, implementations without '
+        'designated cell, hosts well-formed up to trailing None, resolve through removing substitutions) hold under implGenOKB / '
+        'noSelfIgnB / resolveGenOKB, also counted (coverage keys *_general) with the conclusion wfNoTrail checked on the real result; '
+        'outside them (an implementation violating implGenOKB, a cell that is a port or a fork, a raising call) the function after '
+        'substitute / resolve_tlib_cells is validated by simulation before/after only',
         'resolve_datasheet_sem (Props/C10Datasheet.lean, composition with C19): the cell-level clauses of its certificate InstCert '
         '(wfB, orderOKB, forksOKB, linesDrivenB of the implementation, describesB against the row of the generated library tables, '
         'listed family) are evaluated for EVERY key of the five libraries on the real implementation circuits (stream ds-cert: '
